@@ -428,6 +428,48 @@ def types_rule(ctx, ki):
                     msg='%s: on %d path(s) a V_VAL is created but never related to its S_DT over R820' % (q, missing))
 
 
+    # attribute access values: a referential attribute reads with the type of the attribute it refers to, its own type otherwise
+    from .common import resolve_locals
+    from ..kinds import chain_of
+    fq = AP + '.v_avl'
+    fn = repo.nfunc(fq)
+    ps = param_names(fn)
+    typed = [n for n in ast.walk(fn) if isinstance(n, ast.Call) and dotted(n.func) in ('relate', 'xtuml.relate') and len(n.args) >= 3 and rel_of(n.args[2]) and
+             rel_of(n.args[2])[0] == 820]
+    alts = None
+    if len(typed) == 1:
+        for a in typed[0].args[:2]:
+            e = resolve_locals(fn, a)
+            vals = e.values if isinstance(e, ast.BoolOp) and isinstance(e.op, ast.Or) else [e]
+            chains = [chain_of(v) for v in vals]
+            if all(c is not None and c[3] is not None and not c[3].args for c in chains) and all(c[2][-1].kind == 'S_DT' for c in chains):
+                alts = [[(st.kind, st.rel) for st in c[2]] for c in chains if src(c[1]) in ps]
+    want = [[('O_RATTR', 106), ('O_BATTR', 113), ('O_ATTR', 106), ('S_DT', 114)], [('S_DT', 114)]]
+    r.check(alts == want, 'v_avl: the value of an attribute access takes the type of the referred-to base attribute, else the attribute\'s own type', fn,
+            construct=fq, key='avl-type',
+            msg='v_avl types the attribute value with %s (tried in this order); a referential attribute must read with the type of the attribute '
+                'it refers to (O_RATTR[106].O_BATTR[113].O_ATTR[106].S_DT[114]) before its own same_as<Base_Attribute> type' % (alts,))
+    # the values accept_IndexAccessNode / the implicit variable access leave untyped (tabled above) are typed by the assignment that
+    # declares the array: every value on the index chain, not only one end of it
+    fq = AP + '.accept_AssignmentNode'
+    fn = repo.nfunc(fq)
+    walked = 0
+    for lp in [n for n in ast.walk(fn) if isinstance(n, (ast.While, ast.For))]:
+        for st in lp.body:
+            m = pm.match('_V = one(_A).V_VAL[838]()', st)
+            if m is None or not isinstance(m['_V'], ast.Name):
+                continue
+            walked += 1
+            v = m['_V'].id
+            inside = any(pm.match('relate(%s, _S, 820)' % v, c) is not None or pm.match('relate(_S, %s, 820)' % v, c) is not None
+                         for x in lp.body for c in ast.walk(x) if isinstance(c, ast.Call))
+            r.check(inside, 'accept_AssignmentNode types every value on the index chain of the assigned array element', lp, construct=fq, key='index-chain-types',
+                    msg='accept_AssignmentNode walks the index chain (R838) but does not relate each value `%s` it visits to a data type over R820 inside '
+                        'the walk: the intermediate values of a multi-dimensional array element stay untyped' % v)
+    r.check(walked == 1, 'accept_AssignmentNode walks the index chain of the assigned element (R838)', fn, construct=fq, key='index-chain-walk',
+            msg='accept_AssignmentNode no longer walks the array element chain over R838 (%d walks found)' % walked)
+
+
 # ---------------------------------------------------------------------------
 def scope_rule(ctx):
     repo = ctx.repo
